@@ -367,3 +367,54 @@ func genMoveDownIntoMixedRun(r *RNG) (a, b []absLine) {
 	b = append(b, last...)
 	return distinctByMkey(a), distinctByMkey(b)
 }
+
+// genTwoSplitsMove: TWO blocks of one action, each split in this run by a new line of the other action, and a
+// line moved from the lower part of the second block into the lower part of the first one (or the other way
+// round); the new line that splits the moved line's old block overlaps it.  The planner must give the two lower
+// parts different block ids, otherwise the move looks like a move inside one block and is dropped.
+func genTwoSplitsMove(r *RNG) (a, b []absLine) {
+	blk, oth := "permit", "deny"
+	if r.Chance(35) {
+		blk, oth = oth, blk
+	}
+	mk := func(act string, src int, proto string, port int) absLine {
+		return absLine{Act: act, Proto: proto, Src: src, Port: port}
+	}
+	port := Pick(r, pktPorts)
+	moved := mk(blk, 3, "tcp", port)                                           // host 10.1.2.3
+	split2 := mk(oth, Pick(r, []int{2, 1, 0}), "tcp", Pick(r, []int{0, port})) // overlaps the moved line
+	split1 := mk(oth, 5, Pick(r, []string{"udp", "ip"}), 0)                    // host 10.9.9.9, elsewhere
+	sep := mk(oth, 4, "udp", 53)                                               // between the two blocks
+	last := mk(oth, 0, "ip", 0)
+	fill := func(n int, srcs []int, proto string, ports []int) []absLine {
+		var l []absLine
+		for i := 0; i < n; i++ {
+			l = append(l, mk(blk, srcs[i%len(srcs)], proto, ports[i%len(ports)]))
+		}
+		return l
+	}
+	up1, lo1 := fill(1+r.Intn(2), []int{4, 1}, "udp", []int{22, 80}), fill(1+r.Intn(2), []int{4, 5}, "tcp", []int{53, 80})
+	up2, lo2 := fill(1+r.Intn(2), []int{5, 4}, "udp", []int{53, 22}), fill(1+r.Intn(2), []int{4}, "tcp", []int{22, 53})
+	cat := func(ls ...[]absLine) (out []absLine) {
+		for _, l := range ls {
+			out = append(out, l...)
+		}
+		return
+	}
+	one := func(l absLine) []absLine { return []absLine{l} }
+	// the moved line usually sits one or two lines below the split position (the split is then a pure insert)
+	var gap []absLine
+	if r.Chance(75) {
+		gap = fill(1+r.Intn(2), []int{5, 4}, "tcp", []int{80, 53})
+	}
+	if r.Chance(70) {
+		// moved up: from the lower part of block 2 to the end of the lower part of block 1
+		a = cat(up1, lo1, one(sep), up2, gap, one(moved), lo2, one(last))
+		b = cat(up1, one(split1), lo1, one(moved), one(sep), up2, one(split2), gap, lo2, one(last))
+	} else {
+		// moved down: from the lower part of block 1 to the end of the lower part of block 2
+		a = cat(up1, gap, one(moved), lo1, one(sep), up2, lo2, one(last))
+		b = cat(up1, one(split2), gap, lo1, one(sep), up2, one(split1), lo2, one(moved), one(last))
+	}
+	return distinctByMkey(a), distinctByMkey(b)
+}
